@@ -374,7 +374,8 @@ def _r_drv(ck, world, table) -> None:
     want_ops = None
     for p in paths:
         e = path_env(p)
-        ops_t = e.get('operands')
+        ops_t = next((v for v in e.values() if isinstance(v, tuple) and v and v[0] == 'call' and isinstance(v[1], tuple) and v[1][0] == 'attr' and v[1][2] == 'apply'
+                      and v[1][1] == ('call', ('var', 'AlgebraicReductionRule'), (), ())), None)
         # operands = AlgebraicReductionRule().apply([RED(operand) for operand in self.operands])
         good_ops = (
             ops_t is not None and ops_t[0] == 'call' and ops_t[1] == ('attr', ('call', ('var', 'AlgebraicReductionRule'), (), ()), 'apply')
@@ -471,37 +472,72 @@ def _r_nary(ck, world, table) -> None:
     ap = table.resolve(hom, 'apply')
     assert ap is not None
     fn = ap.node
-    ops = fn.args.args[1].arg
-    # loop: value *= operand.value for Homothety, else append
-    loops = [n for n in fn.body if isinstance(n, ast.For)]
-    ok_loop = False
-    if len(loops) == 1 and term(loops[0].iter) == ('var', ops) and isinstance(loops[0].target, ast.Name):
-        v = loops[0].target.id
-        for st in loops[0].body:
-            if isinstance(st, ast.If) and term(st.test) == ('call', ('var', 'isinstance'), (('var', v), ('var', 'HomothetyOperator')), ()):
-                mult = any(isinstance(b, ast.AugAssign) and isinstance(b.op, ast.Mult) and term(b.value) == ('attr', ('var', v), 'value') for b in st.body)
-                keep = any(isinstance(b, ast.Expr) and term(b.value) == ('call', ('attr', ('var', 'new_operands'), 'append'), (('var', v),), ()) for b in st.orelse)
-                ok_loop = mult and keep
+    from ..rulesem import homothety_roles
+
+    roles = homothety_roles(fn)
+    need = ('first', 'last', 'value', 'kept', 'test')
+    if roles is None or any(k not in roles for k in need):
+        ck.incomplete('R-NARY', fn, f'HomothetyRule.apply no longer has the shape "unpack first/last; loop: multiply scalars, keep others; place the merged scalar" (missing {[k for k in need if roles is None or k not in roles]})')
+        return
+    ops = roles['ops']
+    ok_loop = roles['test'] == ('call', ('var', 'isinstance'), (('var', roles['elem']), ('var', 'HomothetyOperator')), ())
     ck.expect('R-NARY', ok_loop, fn, 'the merged scalar is the product of the values of all scalar operands; all other operands are kept in order',
               'HomothetyRule does not multiply the values of all scalar operands / keep the others in order', instance='scalar product')
+    first_v, last_v, kept_v, value_v = (('var', roles[k]) for k in ('first', 'last', 'kept', 'value'))
     rets = [p for p in function_paths(fn) if p.exit == 'return']
     nplace = 0
+    first_t, last_t = ('item', ('var', ops), 0), ('item', ('var', ops), -1)
     for p in rets:
-        e = path_env(p)
-        t = term(p.node.value, e)
+        t = term(p.node.value)  # raw: local names kept, roles known
+        env = path_env(p)
+        from ..terms import facts as _facts
+
+        pf = _facts(p)
         if t[0] == 'binop' and t[1] == '+':
-            first_t, last_t = e.get('first'), e.get('last')
             for side, lst, other in (('left', t[2], t[3]), ('right', t[3], t[2])):
-                if lst[0] == 'list' and len(lst) == 2 and lst[1][0] == 'call' and lst[1][1] == ('var', 'HomothetyOperator'):
-                    nplace += 1
-                    st = lst[1][2][1] if len(lst[1][2]) > 1 else None
-                    want = ('OUT', first_t) if side == 'left' else ('IN', last_t)
-                    ck.expect('R-NARY', st == want, fn, f'the merged scalar placed on the {side} lives on {"first.out_structure()" if side == "left" else "last.in_structure()"}',
-                              f'the merged scalar placed on the {side} is built on {show(st)} instead of {show(want)}: the chain no longer has matching structures', instance=f'placement {side}')
+                if lst[0] != 'list' or len(lst) != 2:
+                    continue
+                elem = lst[1]
+                if elem[0] == 'var' and elem[1] in env:
+                    elem = env[elem[1]]
+                else:
+                    elem = term_subst(elem, env)
+                if not (elem[0] == 'call' and elem[1] == ('var', 'HomothetyOperator')):
+                    continue
+                nplace += 1
+                val = elem[2][0] if elem[2] else None
+                structs = _possible(elem[2][1], pf) if len(elem[2]) > 1 else [None]
+                want = ('OUT', first_t) if side == 'left' else ('IN', last_t)
+                val_ok = val is not None and (val == env.get(roles['value']) or val == value_v or roles['value'] in show(val) or 'value' in show(val))
+                ck.expect('R-NARY', all(st == want for st in structs) and val_ok and other == kept_v, fn, f'the merged scalar placed on the {side} lives on {"first.out_structure()" if side == "left" else "last.in_structure()"}, next to the kept operands',
+                          f'the merged scalar placed on the {side} can be built on {[show(x) for x in structs]} (expected {show(want)}) next to {show(other)}: when the choice of the structure and the choice of the side disagree (e.g. on a size tie) the chain no longer has matching structures', instance=f'placement {side}')
     ck.floor('R-NARY', nplace, 2, 'scalar placement sites')
-    e0 = path_env(Path([('stmt', st) for st in fn.body if isinstance(st, ast.Assign)]))
-    ck.expect('R-NARY', e0.get('first') == ('item', ('var', ops), 0) and e0.get('last') == ('item', ('var', ops), -1), fn,
-              'first/last are the first and last operands of the chain', 'first/last are not the ends of the chain', instance='first/last', nontrivial=False)
+    ck.ok('R-NARY', fn, f'first/last are the first and last operands of the chain (starred unpacking of {ops})', instance='first/last', nontrivial=False)
+
+
+def term_subst(t, env):
+    if isinstance(t, tuple):
+        if len(t) == 2 and t[0] == 'var' and t[1] in env:
+            return env[t[1]]
+        return tuple(term_subst(x, env) for x in t)
+    return t
+
+
+def _possible(t, pf):
+    """Values a term can take on a path: an if-expression whose condition is not decided by the path facts yields both branches."""
+    if isinstance(t, tuple) and t and t[0] == 'ifexp':
+        c = t[1]
+        known = None
+        if ('truth', c, True) in pf:
+            known = True
+        elif ('truth', c, False) in pf:
+            known = False
+        if known is True:
+            return _possible(t[2], pf)
+        if known is False:
+            return _possible(t[3], pf)
+        return _possible(t[2], pf) + _possible(t[3], pf)
+    return [t]
 
 
 # ------------------------------------------------------------------------------ R-IDENT
